@@ -154,7 +154,13 @@ func addField(e *zerolog.Event, name, vc string, i int) (*zerolog.Event, interfa
 	case "time-unix":
 		return e.Int64(name, 981173106), json.Number("981173106")
 	case "msg":
-		v := []string{"hello", "hello world", "m\"q", " ", "\t"}[i%5]
+		switch i % 7 {
+		case 5: // the member under the message key need not be a string (Int("message", 42).Msg("")): a number keeps its digits
+			return e.Int64(name, 42), json.Number("42")
+		case 6:
+			return e.Float64(name, 1.5), json.Number("1.5")
+		}
+		v := []string{"hello", "hello world", "m\"q", " ", "\t"}[i%7%5]
 		return e.Str(name, v), v
 	case "caller":
 		return e.Str(name, "/nonexistent/dir/file.go:12"), "/nonexistent/dir/file.go:12"
